@@ -59,6 +59,8 @@ def gen_case(rng):
     der_direct, der_expr, der_init = set(), set(), set()
     cands = [n for n, t, pf in var_info if t == "Real" and not (set(pf) & {"parameter", "constant", "input"})]
     rng.shuffle(cands)
+    # a differentiated top-level input stays an input (precedence: input before state)
+    der_inputs = [n for n, t, pf in var_info if t == "Real" and pf == ["input"] and rng.random() < 0.5]
     for n in cands:
         k = rng.random()
         if k < 0.3:
@@ -108,6 +110,11 @@ def gen_case(rng):
     for n in sorted(der_init):
         ieqs.append("  der(%s) = 0;" % n)
         tags.add("der:only-in-initial-equation")
+    for n in der_inputs:
+        tgt = next((x for x, t, pf in var_info if t == "Real" and not pf), None)
+        if tgt is not None:
+            eqs.append("  %s = 2 * der(%s)%s;" % (tgt, n, " + der(%s + 1)" % n if rng.random() < 0.3 else ""))
+            tags.add("der:of-top-level-input")
     for name, typ, pf in var_info:
         if name not in ders and typ == "Real" and not pf and rng.random() < 0.5:
             eqs.append("  %s = %s;" % (name, round(rng.uniform(-2, 2), 2)))
@@ -117,14 +124,18 @@ def gen_case(rng):
         # component class with its own prefixes; input/output are stripped below the top level
         cv = []
         cder = []
+        use_alias = rng.random() < 0.5
         for j in range(rng.randint(2, 4)):
-            typ = "Real"
             pf = list(rng.choice([[], [], ["input"], ["output"], ["parameter"], ["constant"], ["discrete"]]))
             nm = "z%d" % j
             cv.append((nm, pf))
         body = ""
+        ctypes = {}
         for nm, pf in cv:
-            body += "  " + " ".join(pf) + (" " if pf else "") + "Real " + nm
+            ctypes[nm] = "TV" if use_alias and rng.random() < 0.6 else "Real"
+            if ctypes[nm] == "TV":
+                tags.add("nested-decl:alias-type:%s" % ("+".join(pf) or "none"))
+            body += "  " + " ".join(pf) + (" " if pf else "") + ctypes[nm] + " " + nm
             if set(pf) & {"parameter", "constant"}:
                 body += " = " + lit("Real", rng)
             body += ";\n"
@@ -134,7 +145,7 @@ def gen_case(rng):
                 ceqs += "  der(%s) = 1;\n" % nm
                 cder.append(nm)
                 tags.add("der:nested-component-variable")
-        pre = "model C\n" + body + ("equation\n" + ceqs if ceqs else "") + "end C;\n\n"
+        pre = ("type TV = Real(unit = \"V\");\n\n" if use_alias else "") + "model C\n" + body + ("equation\n" + ceqs if ceqs else "") + "end C;\n\n"
         ninst = rng.randint(1, 2)
         for k in range(ninst):
             inst = "c%d" % (k + 1)
